@@ -78,6 +78,7 @@ def base_events():
         ("AUX", None, None, "ok", "ok"),
         ("SH", 1, None, "ok", "ok"),
         ("SH", 2, None, "ok", "ok"),
+        ("SH", 3, None, "ok", "ok"),
         ("FRAGN", (2, "bad", "same"), None, "ok", "ok"),
         ("FRAGN", ("rest", "alias", "same"), None, "ok", "ok"),
         ("FRAGN", ("rest", "ok", "diff"), None, "ok", "ok"),
@@ -123,7 +124,10 @@ class Context(object):
         self.f_alt = self.f.but(frame_rate=("preset", 3))
         # a third header that differs from the first only in its last coded field before picture_coding_mode
         self.f_late = self.f.but(color_spec=("custom", None, None, 1))
-        self.sh = [B.seq_header(self.f), B.seq_header(self.f_alt), B.seq_header(self.f_late)]
+        # a fourth header that *decodes* to the same values as the first but is spelled differently
+        # (custom frame-rate flag set, carrying base format 0's own preset index 1 = 24000/1001)
+        self.f_respelled = self.f.but(frame_rate=("preset", 1))
+        self.sh = [B.seq_header(self.f), B.seq_header(self.f_alt), B.seq_header(self.f_late), B.seq_header(self.f_respelled)]
         self.hdr = {"major_version": major_version, "profile": profile, "level": level, "fields": bool(fields), "min_version": 1}
 
     @property
@@ -396,6 +400,8 @@ def _expand(arg):
     with vc2run.permissive_levels():
         for h in hists:
             for e in evs:
+                if e[0] == "SH" and e[1] >= 2 and not _sequence_has_header(h):
+                    continue  # header variants 2, 3 only as *repeated* headers (as a first header they are symmetric to variant 0)
                 h2 = list(h) + [e]
                 try:
                     r = evaluate(ctx, h2)
@@ -415,6 +421,15 @@ def _expand(arg):
                     out.append((stable_hash(r["key"]), h2))
     t.extra = out
     return t
+
+
+def _sequence_has_header(h):
+    for e in reversed(h):
+        if e[0] == "EOS":
+            return False
+        if e[0] == "SH":
+            return True
+    return False
 
 
 def bfs(ctx_t, depth, evs, total):
